@@ -634,6 +634,34 @@ def special_cases(ctx, mod):
         cand.m = value
         ctx.count('special_cases')
         check_verify(ctx, verifyObject, I, cand, False, [] if ok else [(BrokenMethodImplementation, 'm')], {'form': 'special', 'kind': label})
+    # attributes that come out of descriptors and attribute hooks
+    good = mkfunc('m', req=1)[0]
+
+    def mk(ns):
+        K = type('CandP', (object,), ns)
+        classImplements(K, I)
+        return K
+    cases = [
+        # (label, class namespace, verifyObject expectation, verifyClass expectation)
+        ('property-returning-a-function', {'m': property(lambda self: good)}, [], []),
+        ('property-returning-a-non-callable', {'m': property(lambda self: 5)}, [(BrokenMethodImplementation, 'm')], []),
+        ('property-raising-AttributeError', {'m': property(lambda self: (_ for _ in ()).throw(AttributeError('m')))},
+         [(BrokenImplementation, 'm')], []),
+        ('name-from-__getattr__', {'__getattr__': lambda self, n: good if n == 'm' else (_ for _ in ()).throw(AttributeError(n))},
+         [], [(BrokenImplementation, 'm')]),
+        ('unset-slot', {'__slots__': ('m',)}, [(BrokenImplementation, 'm')], None),
+        ('classmethod', {'m': classmethod(lambda cls, a0: None)}, [], []),
+        ('classmethod-too-many-required', {'m': classmethod(lambda cls, a0, a1: None)}, [(BrokenMethodImplementation, 'm')],
+         [(BrokenMethodImplementation, 'm')]),
+        ('partial', {'m': __import__('functools').partial(lambda a0: None)}, [], []),
+        ('bound-builtin', {'m': [].append}, [], []),
+    ]
+    for label, ns, exp_o, exp_c in cases:
+        K = mk(ns)
+        ctx.count('special_cases')
+        check_verify(ctx, verifyObject, I, K(), False, exp_o, {'form': 'special', 'kind': label, 'how': 'object'})
+        if exp_c is not None:
+            check_verify(ctx, verifyClass, I, K, False, exp_c, {'form': 'special', 'kind': label, 'how': 'class'})
     # directly provided counts as declared
     C = type('CandD', (object,), {'m': mkfunc('m', self_first=True, req=1)[0]})
     cand = C()
